@@ -5,8 +5,9 @@ the patch to the worktree (clean checkout of /repo HEAD; fuzz allowed), regenera
 import json, os, shutil, subprocess, sys, time
 inc, wt, out = sys.argv[1:4]
 only = sys.argv[4:]
-env = dict(os.environ, CARGO_NET_OFFLINE="true", TMPDIR="/tmp/verify-tmp")
-os.makedirs("/tmp/verify-tmp", exist_ok=True)
+VT = os.environ.get("VERIFY_TMP", "/tmp/verify-tmp")
+env = dict(os.environ, CARGO_NET_OFFLINE="true", TMPDIR=VT)
+os.makedirs(VT, exist_ok=True)
 def sh(cmd, timeout=2400):
     r = subprocess.run(cmd, shell=True, cwd=wt, env=env, stdout=subprocess.PIPE, stderr=subprocess.STDOUT, text=True, timeout=timeout)
     return r.returncode, r.stdout
